@@ -7,7 +7,8 @@ ends that process and a fresh fork of the prior state carries on.  Crashes, sani
 violations.  Candidate sets (each enumerated completely):
   1. every string of <= L tokens over a 15-token alphabet (names, quoted strings with escapes, brackets, separators,
      comments, a lone quote)
-  2. every byte string of <= 4 bytes over 14 bytes
+  2. every byte string of <= 4/5 bytes over 14 bytes; every string of <= 4/5 tokens over a second alphabet of
+     escapes cut short, comment edge cases and values for the registered integer
   3. every truncation (crash point of the editor: file cut at every byte) and every single-byte substitution by each
      of 13 bytes, of six valid files (the shipped test/coverage/example files and two generated ones)
 """
@@ -29,6 +30,7 @@ PRIORS = [
 ]
 
 TOKENS = [b'a', b'b', b'"q s"', b'"\\x41\\n"', b'(', b')', b'{', b'}', b',', b';', b'\n', b' ', b'/*c*/', b'//c\n', b'"']
+TOKENS2 = [b'a', b'"\\x4"', b'"\\x"', b'"\\"', b'/**/', b'/***/', b'/*', b'*/', b'/', b'\n', b'n', b' 7', b' x7', b'{', b'}', b'(', b')', b',']      # escapes cut short, comment edge cases, the registered integer n
 BYTES = [b'a', b'"', b'\\', b'x', b'4', b'/', b'*', b'{', b'}', b'(', b',', b';', b'\n', b'\0']
 SUBST = [b'"', b'\\', b'{', b'}', b'(', b')', b',', b';', b'/', b'*', b'\0', b'\n', b'a']
 
@@ -119,8 +121,10 @@ def main(tier):
         for k in range(NP):
             tasks.append(('tok', pi, TOKENS, L, k, NP))
         plan.append('tokens<=%d on %s' % (L, pname))
-        for k in range(4):
-            tasks.append(('tok', pi, BYTES, 4, k, 4))
+        for k in range(8):
+            tasks.append(('tok', pi, BYTES, 5 if pi in (3, 4) or not quick else 4, k, 8))
+        for k in range(2):
+            tasks.append(('tok', pi, TOKENS2, 4 if quick else 5, k, 2))
         for fname, data in files:
             what = 'both' if (not quick or pi in (3, 4)) else 'trunc'
             muts = mutations(data, what)
